@@ -167,7 +167,6 @@ class SetEncoder(encoder.SequenceEncoder):
         substrate = null
 
         comps = []
-        compsMap = {}
 
         if asn1Spec is None:
             # instance of ASN.1 schema
@@ -193,12 +192,10 @@ class SetEncoder(encoder.SequenceEncoder):
                     if namedType.isDefaulted and component == namedType.asn1Object:
                             continue
 
-                    compsMap[id(component)] = namedType
-
                 else:
-                    compsMap[id(component)] = None
+                    namedType = None
 
-                comps.append((component, asn1Spec))
+                comps.append((component, asn1Spec, namedType))
 
         else:
             # bare Python value + ASN.1 schema
@@ -217,13 +214,11 @@ class SetEncoder(encoder.SequenceEncoder):
                 if namedType.isDefaulted and component == namedType.asn1Object:
                     continue
 
-                compsMap[id(component)] = namedType
-                comps.append((component, asn1Spec[idx]))
+                comps.append((component, asn1Spec[idx], namedType))
 
         # X.690 (10.3) orders SET components by their (outermost) tag
-        for comp, compType in sorted(
-                comps, key=lambda x: self._componentSortKey(x)[-1:]):
-            namedType = compsMap[id(comp)]
+        for comp, compType, namedType in sorted(
+                comps, key=lambda x: self._componentSortKey(x[:2])[-1:]):
 
             if namedType:
                 options.update(ifNotEmpty=namedType.isOptional)
